@@ -836,6 +836,10 @@ func (r *runner) exec(i int, s behav.Step) *Mismatch {
 			return mm("blockdata", "blockData(%d): %s", k, diffBits(want, got))
 		}
 	case "Blocks":
+		if s.Has("ckpost") {
+			// binding self-test: the reference is built from planted wrong contents
+			return r.checkBlocks(nil, s.Ints("ckpost"), true)
+		}
 		return r.checkBlocks(s.Ints("out"), post, true)
 	case "Value":
 		want, _ := chgWant(s)
@@ -956,7 +960,7 @@ func (r *runner) checkBlocks(wantIDs []int, post []int, cover bool) *Mismatch {
 	for _, b := range got {
 		gotIDs = append(gotIDs, b.ID)
 	}
-	if r.c.Kind != "bsi" && fmt.Sprint(wantIDs) != fmt.Sprint(ids) {
+	if r.c.Kind != "bsi" && wantIDs != nil && fmt.Sprint(wantIDs) != fmt.Sprint(ids) {
 		panic("harness: block ids derived from post differ from the specification's")
 	}
 	if fmt.Sprint(gotIDs) != fmt.Sprint(ids) {
